@@ -13,14 +13,14 @@ RELS = [M + f for f in ('match_past_relations', 'match_future_child', 'match_fut
                         'match_subselectors')]
 HUB = [M + 'match_selectors']
 ENTRY = [M + f for f in ('match', 'select', 'closest', 'filter', 'match_scope')]
-SHARDS = {'match_selectors': 16, 'match_nth': 4, 'match_range': 8, 'match_default': 8, 'match_lang': 16, 'match_indeterminate': 4, 'extended_language_filter': 8, 'match_past_relations': 4, 'match_future_relations': 4, 'parse_value': 8}
+COMMON_SHARDS = SHARDS = {'match_dir': 8, 'get_descendants': 2, 'match_selectors': 16, 'match_nth': 4, 'match_range': 8, 'match_default': 8, 'match_lang': 16, 'match_indeterminate': 4, 'extended_language_filter': 8, 'match_past_relations': 4, 'match_future_relations': 4, 'parse_value': 8}
 A_PY = 'A-py (E1-E6: Python evaluation semantics assumed by the encoding; ints mathematical)'
 A_BS4 = 'A-bs4 (bs4 object model: parent/contents/sibling links, node kinds, attribute views; accessors side-effect free)'
 A_IR = 'A-ir (IR values are finite and acyclic; matcher contracts quantify over well-formed IR: ir_wf_list)'
 A_SMT = 'A-smt (z3 5.1 / cvc5 1.0.3 answer unsat only when true)'
 A_RE = 'A-re (CPython re accepts exactly the translated language of the patterns involved)'
-OPAQUE_NOTE = ('contracts assumed, not yet discharged by pyvc (their bodies are covered only by the bounded tier): normalize_value, split_namespace, create_fake_parent, '
-               'get_descendants (iframe-skipping walk); '
+OPAQUE_NOTE = ('contracts assumed, not discharged by pyvc (their bodies are covered only by the bounded tier): normalize_value, split_namespace, create_fake_parent '
+               '(bs4 attribute-key and object-construction internals); '
                ' termination of the mutual recursion through sub-lists rests on A-ir')
 
 ALL_HTML = ['basic', 'nows', 'multiroot', 'forms', 'ranges', 'lang', 'dir', 'iframe', 'text', 'attrs', 'identical']
@@ -71,3 +71,14 @@ def indet_structural(ctx):
 DIRFN = [M + 'match_dir', M + 'find_bidi']
 A_BIDI = ('unicodedata.bidirectional is an uninterpreted total function of the character (bidi_class); finite trees: a node is strictly lower than its parent '
           '(height), which bounds the recursive descent of find_bidi')
+
+
+def validate_ir(ctx):
+    from pyvc import validate_ir as v
+    return v.sweep(ctx)
+
+DESC = [N + 'get_descendants', N + 'get_tag_descendants']
+A_PRE = ('A-bs4-preorder: el.descendants is the pre-order flattening of el\'s subtree - for c = D[i]: the subtree of c occupies the next len(c.descendants) positions, a next '
+         'sibling follows it immediately, next_element of its last descendant is what follows (None only at the very end), no node occurs twice; instantiated per term by '
+         'the get_descendants proof and validated natively on every node of every corpus tree on every run. desc_spec is the name callers use for the result of this pure '
+         'function; what is proved about it is desc_def (pre-order, iframe subtrees passed over)')
